@@ -8,6 +8,13 @@ pub const CORPUS_README: &str = include_str!("../../corpus/readme_exprs.txt");
 /// Expressions named in the property records and found while probing (deviations and their
 /// conforming neighbours).
 pub const CORPUS_EXTRA: &[&str] = &[
+    "**/?*",
+    "**/?*?*",
+    "**/?*/?*",
+    "a/**/?$?*",
+    "<*/>?*?*",
+    "**/*?",
+    "**/??*",
     "<**/\\<:0,1>/**/ǆ",
     "/x{a/**,**/b}",
     "**/b",
@@ -613,8 +620,11 @@ pub fn bombs() -> Vec<String> {
 /// open tail: the shapes on which exhaustiveness and depth verdicts depend.
 pub fn component_repetition(rng: &mut Rng) -> String {
     const BODY: &[&str] = &["*/", "*/*/", "a/", "?/", "[ab]*/", "{a,b}/", "<?>/", "a*/", "*a/", "*/a/", "$/", "*/?/"];
-    const TAIL: &[&str] = &["*", "**", "", "a*", "*a", "*/**", "?", "$", "{a,b}", "a", "*.rs", "[!.]*"];
-    const HEAD: &[&str] = &["", "", "", "src/", "a/", "**/", "x", "/", "{a,b}/"];
+    const TAIL: &[&str] = &[
+        "*", "**", "", "a*", "*a", "*/**", "?", "$", "{a,b}", "a", "*.rs", "[!.]*", "?*", "?*?*", "?$?*", "*?", "??*", "?*?", "?*/?*", "[ab]*",
+        "*[ab]*", "?*/*",
+    ];
+    const HEAD: &[&str] = &["", "", "", "src/", "a/", "**/", "x", "/", "{a,b}/", "**/", "a/**/"];
     const BNDS: &[&str] = &["", ":", ":0,", ":1,", ":2,", ":0,1", ":0,2", ":0,3", ":1,2", ":1,3", ":2,4", ":2", ":3", ":1", ":0,4"];
     let mut s = String::new();
     s.push_str(rng.pick_str(HEAD));
